@@ -65,6 +65,17 @@ Theorem C13_dns_match_pure : forall hash psl backing ne de V,
        (dns_match hash psl (vnet V) (vhost V) de hostname (new_hostname_request psl hostname cn ip tags t)).
 Proof. exact pure_dns_match. Qed.
 Print Assumptions C13_dns_match_pure.
+(* ... for every kind of query, the web engine included (Engine.MatchRequest: the request and its referrer, each looked
+   up through the shared storage; the answer is the verdict record of Model/Engines.v engine_match_request) *)
+Theorem C13_step_pure : forall hash psl backing ne de V,
+  (forall idx r, V idx = Some r -> backing idx = Some r) -> forall o, o <> OpClose ->
+  Pure backing ne de V (step hash psl backing ne de o) (pure_answer hash psl ne de V o).
+Proof. exact pure_step. Qed.
+Print Assumptions C13_step_pure.
+Theorem C13_web_answer : forall hash psl ne de V q,
+  pure_answer hash psl ne de V (QWeb q) = AWeb (engine_match_request hash psl (vnet V) ne q).
+Proof. reflexivity. Qed.
+Print Assumptions C13_web_answer.
 
 (* "evaluating derived results alters neither the engine nor previously returned results" — the aliasing clause,
    on a model of Go slices (backing arrays, offset, length, capacity, append with ANY growth policy):
